@@ -55,8 +55,8 @@ PLAN = {
     "C09": dict(
         quick=[("over5_d", dict(cap=800, shuffle=3)), ("over5_c", dict(cap=800, shuffle=3)), ("lit_overflow_cancel", dict(cap=500, shuffle=6)),
                ("lit_overflow_finish", dict(cap=500, shuffle=4)), ("lit_overflow_finish_c", dict(cap=500, shuffle=4)),
-               ("qlimit5", dict(cap=4000)), ("scope_q1", dict(cap=1500)), ("slimit5", dict(cap=3000))],
-        thorough=["over5_d", "over5_c", "over6_c", "lit_overflow_finish", "lit_overflow_finish_c", "lit_overflow_cancel", "qlimit5", "slimit5"],
+               ("qlimit5", dict(cap=4000)), ("qlimit_with", dict(cap=2500)), ("scope_q1", dict(cap=1500)), ("slimit5", dict(cap=3000))],
+        thorough=["over5_d", "over5_c", "over6_c", "lit_overflow_finish", "lit_overflow_finish_c", "lit_overflow_cancel", "qlimit5", "qlimit_with", "slimit5"],
         vacuity=[("over5_d", ["FixForceStart"]), ("over5_d", ["FixFifo"])],
     ),
     "C10": dict(
